@@ -28,7 +28,7 @@ TraceHostSends == nexch < Len(Rec) /\ HostSends(Rec[nexch + 1].in)
 
 TraceNext ==
     \/ TraceHostSends
-    \/ Decode2 \/ Decode1 \/ DecodeType \/ Call \/ Reject
+    \/ Decode2 \/ Decode1 \/ DecodeType \/ Lookup \/ Call \/ Reject
     \/ Encode2 \/ Encode1 \/ EncodeType \/ SerializeAuthDataAct
     \/ NextExchange
 
@@ -176,6 +176,12 @@ Verdict_dispatch(e) ==
                 /\ o.args_same /\ o.value_same /\ o.rpc_same
     IN  [bind |-> bind, unspec |-> FALSE, violated |-> IF bind THEN {} ELSE Props(e)]
 
+\* table look-ups: every field the model fixes must be observed with that value
+Verdict_lookup(e) ==
+    LET o == e.obs
+        bind == \A k \in DOMAIN req : k \in DOMAIN o /\ o[k] = req[k]
+    IN  [bind |-> bind, unspec |-> FALSE, violated |-> IF bind THEN {} ELSE Props(e)]
+
 (***************************************************************************)
 (* The verdict of the event whose exchange just reached its terminal phase *)
 (***************************************************************************)
@@ -191,6 +197,7 @@ VerdictOf(e) ==
            [] e.op = "apdu"        -> Verdict_apdu(e)
            [] e.op = "u2f_encode"  -> Verdict_u2f_encode(e)
            [] e.op = "dispatch"    -> Verdict_dispatch(e)
+           [] e.op \in LookupOps    -> Verdict_lookup(e)
 
 
 RECURSIVE SetAsSeq(_)
